@@ -162,6 +162,23 @@ func getGrafanaNetAddr(addr string) (string, string, string) {
 // NewGrafanaNet creates a special route that writes to a grafana.net datastore
 // We will automatically run the route and the destination
 func NewGrafanaNet(key string, matcher matcher.Matcher, cfg GrafanaNetConfig) (Route, error) {
+	// these feed divisions, channel sizes, tickers and timeouts. nonsensical values would crash or hang us later
+	switch {
+	case cfg.Concurrency < 1:
+		return nil, errors.New("NewGrafanaNet: concurrency must be >= 1")
+	case cfg.BufSize < 0:
+		return nil, errors.New("NewGrafanaNet: bufSize must be >= 0")
+	case cfg.FlushMaxNum < 1:
+		return nil, errors.New("NewGrafanaNet: flushMaxNum must be >= 1")
+	case cfg.FlushMaxWait <= 0:
+		return nil, errors.New("NewGrafanaNet: flushMaxWait must be > 0")
+	case cfg.Timeout <= 0:
+		return nil, errors.New("NewGrafanaNet: timeout must be > 0")
+	case cfg.ErrBackoffMin <= 0:
+		return nil, errors.New("NewGrafanaNet: errBackoffMin must be > 0")
+	case cfg.ErrBackoffFactor < 1:
+		return nil, errors.New("NewGrafanaNet: errBackoffFactor must be >= 1")
+	}
 	schemas, err := getSchemas(cfg.SchemasFile)
 	if err != nil {
 		return nil, err
